@@ -270,6 +270,7 @@ type connResult struct {
 //	sw=N            SetBodyStreamWriter writing N bytes in 3 pieces
 //	te=1            ctx.TimeoutError("timed out!") then keep mutating
 //	uv=1            set a user value (must not be visible to the next request)
+//	bops=b..|a..|w..|r..|R|x   the body built in several steps (SetBodyString / AppendBodyString / ctx.WriteString / SetBodyRaw / SetBodyRaw(nil) / ResetBody)
 //	hdr=K:V ck=k:v sm=MSG app=TEXT raw=TEXT skip=1   further response-building calls (C03)
 func runConn(cfg connCfg, chunks [][]byte) *connResult {
 	return newConnServer(cfg).run(chunks)
@@ -516,6 +517,30 @@ func newConnServer(cfg connCfg) *connServer {
 		}
 		if b := q.Peek("raw"); b != nil {
 			ctx.Response.SetBodyRaw(append([]byte(nil), b...))
+		}
+		if v := q.Peek("bops"); v != nil {
+			// a handler that builds its body in several steps: b<text> SetBodyString, a<text> AppendBodyString, w<text> ctx.WriteString,
+			// r<text> SetBodyRaw, R SetBodyRaw(nil), x ResetBody; steps separated by '|'
+			for _, op := range strings.Split(string(v), "|") {
+				if op == "" {
+					continue
+				}
+				arg := op[1:]
+				switch op[0] {
+				case 'b':
+					ctx.Response.SetBodyString(arg)
+				case 'a':
+					ctx.Response.AppendBodyString(arg)
+				case 'w':
+					ctx.WriteString(arg)
+				case 'r':
+					ctx.Response.SetBodyRaw([]byte(arg))
+				case 'R':
+					ctx.Response.SetBodyRaw(nil)
+				case 'x':
+					ctx.Response.ResetBody()
+				}
+			}
 		}
 		if q.Has("skip") {
 			ctx.Response.SkipBody = true
